@@ -152,10 +152,11 @@ impl Interval {
             self.start
         } else {
             let now = Instant::now();
+            // The remainder is below `period`, so it fits a `Duration`, but not
+            // necessarily the `u64` nanoseconds of `Duration::from_nanos`.
+            let rem = (now - self.start).as_nanos() % self.period.as_nanos();
             let next = now + self.period
-                - Duration::from_nanos(
-                    ((now - self.start).as_nanos() % self.period.as_nanos()) as _,
-                );
+                - Duration::new((rem / 1_000_000_000) as u64, (rem % 1_000_000_000) as u32);
             sleep_until(next).await;
             next
         }
